@@ -313,8 +313,9 @@ class World:
         dg = Dgram(self.serial, src, dst, data, self.now, frm)
         self.dgrams[dg.serial] = dg
         self.ev(ev="Send", inst=frm, dg=dg.serial, src=src, dst=dst, data=data)
-        for delay, d2, s2, dst2 in self.policy.route(self, dg):
-            self.push(self.now + delay, "arrive", (dg.serial, d2, s2, dst2))
+        for r in self.policy.route(self, dg):
+            delay, d2, s2, dst2 = r[:4]
+            self.push(self.now + delay, "arrive", (dg.serial, d2, s2, dst2, r[4] if len(r) > 4 else None))
         return dg
 
     def find_sock(self, dst):
@@ -327,9 +328,9 @@ class World:
                 return s
         return None
 
-    def _arrive(self, serial, data, src, dst):
+    def _arrive(self, serial, data, src, dst, tag=None):
         if dst in self.endpoints:
-            self.ev(ev="Deliver", dg=serial, to="endpoint", dst=dst, data=data, src=src)
+            self.ev(ev="Deliver", dg=serial, to="endpoint", dst=dst, data=data, src=src, tag=tag)
             self.endpoints[dst](self, serial, src, dst, data)
             return
         s = self.find_sock(dst)
@@ -338,7 +339,7 @@ class World:
             return
         self.k.cmd("dg %d %s %d %s %s" % (s.fd, src[0], src[1], dst[0], hx(data)))
         s.buffered += 1
-        self.ev(ev="Deliver", dg=serial, to=s.inst.name, dst=dst, data=data, src=src)
+        self.ev(ev="Deliver", dg=serial, to=s.inst.name, dst=dst, data=data, src=src, tag=tag)
 
     def inject_dgram(self, src, dst, data, delay=0, tag="script"):
         """A scripted endpoint sends a datagram (goes through the policy like any other)."""
